@@ -365,6 +365,20 @@ class Run:
         self.quiet = q
         self.emit({"e": "sendsignal", "stage": stage_ref, "pers": persistent, "s": self.proj.state()})
 
+    def send_add_instance(self, stage_ref: str) -> None:
+        from stabilize.queue.messages import AddMultiInstance
+
+        sid = None
+        for r in self.raw.execute("SELECT id FROM stage_executions WHERE ref_id = ? AND execution_id = ?", (stage_ref, self.wf_id)):
+            sid = r["id"]
+        q = self.quiet
+        self.quiet = True
+        with self.store.transaction(self.queue) as txn:
+            txn.push_message(AddMultiInstance(execution_type="PIPELINE", execution_id=self.wf_id, stage_id=sid,
+                                              instance_context={"n": 1}))
+        self.quiet = q
+        self.emit({"e": "sendadd", "stage": stage_ref, "s": self.proj.state()})
+
     def send_cancel_region(self, region: str) -> None:
         from stabilize.queue.messages import CancelRegion
 
